@@ -721,6 +721,7 @@ static Plan cards_generate(uint64_t seed, const Tier &tier)
 	unsigned r = (unsigned)g.below(20);
 	p.cfg["k"] = (r < 14) ? (int64_t)g.range(2, 4) : ((r < 19) ? 5 : 7);
 	p.cfg["w"] = g.chance(1, 8) ? (int64_t)g.range(5, 7) : (int64_t)g.range(1, 4);
+	if (g.chance(1, 16)) { p.cfg["w"] = (int64_t)g.range(8, TMCG_MAX_TYPEBITS); if (p.cfg["k"] > 3) p.cfg["k"] = 3; } // up to 1024 card types (few players then: the type table costs 2^w exponentiations per instance)
 	p.cfg["kappa"] = g.chance(1, 10) ? 0 : (int64_t)g.range(1, (prop == "C04") ? 8 : 12);
 	p.cfg["group"] = (int64_t)g.below(5);
 	p.cfg["tap"] = g.chance(1, 2);
@@ -745,9 +746,9 @@ static Plan cards_generate(uint64_t seed, const Tier &tier)
 	}
 	int64_t k = p.cfg["k"];
 	// a short set-up phase so that every proof kind has something to talk about
-	for (int i = (int)g.range(1, 2); i > 0; i--) p.ops.push_back(Op("card", (int64_t)g.below(128)));
+	for (int i = (int)g.range(1, 2); i > 0; i--) p.ops.push_back(Op("card", (int64_t)g.below(1 << 10)));
 	for (int i = (int)g.range(0, 2); i > 0; i--) p.ops.push_back(Op("mask", (int64_t)g.below(k), (int64_t)g.below(64)));
-	if (g.chance(1, 2)) p.ops.push_back(Op("vmask", (int64_t)g.below(k), (int64_t)g.below(128)));
+	if (g.chance(1, 2)) p.ops.push_back(Op("vmask", (int64_t)g.below(k), (int64_t)g.below(1 << 10)));
 	{
 		unsigned r2 = (unsigned)g.below(20);
 		int64_t n = (r2 < 12) ? (int64_t)g.range(2, 6) : ((r2 < 17) ? (int64_t)g.range(7, 12) : ((r2 < 19) ? 1 : (int64_t)g.range(13, 24)));
@@ -758,9 +759,9 @@ static Plan cards_generate(uint64_t seed, const Tier &tier)
 	for (int i = 0; i < nops; i++)
 	{
 		unsigned c = (unsigned)g.below(100);
-		if (c < 12) p.ops.push_back(Op("card", (int64_t)g.below(128)));
+		if (c < 12) p.ops.push_back(Op("card", (int64_t)g.below(1 << 10)));
 		else if (c < 24) p.ops.push_back(Op("mask", (int64_t)g.below(k), (int64_t)g.below(64)));
-		else if (c < 30) p.ops.push_back(Op("vmask", (int64_t)g.below(k), (int64_t)g.below(128)));
+		else if (c < 30) p.ops.push_back(Op("vmask", (int64_t)g.below(k), (int64_t)g.below(1 << 10)));
 		else if (c < 40) { Op o("open", (int64_t)g.below(k), (int64_t)g.below(64), g.chance(1, 3) ? (int64_t)g.below(k) : -1); o.a.push_back((faults && g.chance(1, 3)) ? (int64_t)g.below(1 << 10) : -1); p.ops.push_back(o); }
 		else if (c < 48) p.ops.push_back(Op("stack", (int64_t)g.range(1, 10), (int64_t)g.below(1 << 20)));
 		else if (c < 62) p.ops.push_back(Op("mix", (int64_t)g.below(k), (int64_t)g.below(16), g.chance(2, 5) ? 1 : 0, g.chance(1, 12) ? 1 : 0));
